@@ -777,6 +777,24 @@ def run_fmt(r, obs, ctl):
 
 # ------------------------------------------------------------------ UpdateContext
 UNSET = object()
+
+
+def _json_invisible_variant(c):
+    """The context with every list replaced by a tuple and every dictionary's keys inserted in
+    the opposite order; None if that changes nothing."""
+    changed = [False]
+
+    def conv(v):
+        if isinstance(v, dict):
+            if len(v) > 1:
+                changed[0] = True
+            return dict((k, conv(v[k])) for k in reversed(list(v)))
+        if isinstance(v, list):
+            changed[0] = True
+            return tuple(conv(x) for x in v)
+        return v
+    out = conv(c)
+    return out if changed[0] else None
 _combo = [0]
 
 
@@ -865,7 +883,17 @@ def run_upd(r, obs, ctl):
             if made is not None:
                 el = made
         prev_ids = set()
-        for ctx in ctxs:
+        ctxs_here = list(ctxs)
+        if kind in ("format", "value"):
+            # the same element then meets contexts that differ from earlier ones only in ways a
+            # JSON dump cannot show: a tuple where a list was, another key order of a rendered
+            # sub-dictionary
+            for cx in ctxs:
+                if cx:
+                    v1 = _json_invisible_variant(cx)
+                    if v1 is not None:
+                        ctxs_here.append(v1)
+        for ctx in ctxs_here:
             data = ["D"]
             c = R.cp(ctx) if ctx is not None else None
             value_in = (data, c) if c is not None else data
